@@ -18,12 +18,22 @@ def subsets(seq, max_size=None):
 
 
 def label_queries(labels, limit=6):
-    """all subsets for small label lists, else a structured family (empty, singletons, pairs, prefixes, all)"""
+    """all subsets for small label lists, else a structured family (empty, singletons, pairs, prefixes, all), thinned
+    out for long lists (word-boundary neighbours kept)"""
     labels = list(labels)
-    if len(labels) <= limit:
+    L = len(labels)
+    if L <= limit:
         return [list(s) for s in subsets(labels)]
-    out = [[]] + [[x] for x in labels] + [list(p) for p in itertools.combinations(labels, 2)]
-    out += [labels[:k] for k in range(3, len(labels) + 1)] + [labels[k:] for k in range(1, len(labels) - 2)]
+    if L <= 16:
+        singles = list(range(L))
+        pairs = list(itertools.combinations(range(L), 2))
+    else:
+        keep = sorted({0, 1, 2, 7, 8, 9, 31, 32, 33, 62, 63, 64, 65, 66, 127, 128, 129, L // 2, L - 2, L - 1} & set(range(L)))
+        singles = keep
+        pairs = [(a, b) for a, b in itertools.combinations(keep, 2) if b - a in (1, 2, 63, 64, 65) or a < 3][:60]
+    out = [[]] + [[labels[i]] for i in singles] + [[labels[a], labels[b]] for a, b in pairs]
+    cuts = range(3, L + 1) if L <= 16 else [3, 8, 9, 63, 64, 65, 66, 128, 129, L]
+    out += [labels[:k] for k in cuts if k <= L] + [labels[k:] for k in (range(1, L - 2) if L <= 16 else [1, 63, 64, 65, L - 3]) if k < L]
     out += [labels[::2], labels[1::2]]
     seen, res = set(), []
     for q in out:
